@@ -8,7 +8,7 @@ import struct
 import types
 import z3
 
-from .sorts import (Sym, SInt, SBool, SBytes, SStr, SVal, SVL, SF64, Val, VL, Bytes, Int, Bool, F64,
+from .sorts import (SReal, Real, Sym, SInt, SBool, SBytes, SStr, SVal, SVL, SF64, Val, VL, Bytes, Int, Bool, F64,
                     seq_lit, fresh, typeof, type_id, TYPE_ID)
 from . import ops
 from .ops import Unsupported, truth, b2v, i2v, zint, zbool, zseq, to_val, to_vl, Choice, TRUE, FALSE, is_sym
@@ -33,7 +33,7 @@ PURE_BUILTINS = (len, min, max, abs, int, str, bytes, bool, tuple, isinstance, i
 class Lib(object):
     def __init__(self, spec):
         self.spec = spec
-        self.model_classes = {"BytesIO": "BytesIO", "Lock": "Lock", "Condition": "Condition", "socket": "socket",
+        self.model_classes = {"BytesIO": "BytesIO", "Lock": "Lock", "Condition": "Condition", "socket": "socket", "count": "count",
                               "pipefile": "pipefile"}
         self.used = set()
         self.slice_cache_key = "__slices__"
@@ -79,7 +79,7 @@ class Lib(object):
         if (o.oid, name) in st.heap or engine.field_sort(o, name):
             yield st, engine.heap_get(st, o, name)
             return
-        if o.kind in ("joinlist", "list", "dict"):
+        if o.kind in ("joinlist", "list", "dict", "vlist"):
             yield st, BoundMethod(o, None, name)
             return
         cls = o.cls
@@ -166,6 +166,9 @@ class Lib(object):
                 yield st, None
                 return
             raise Unsupported("list method %s on list[bytes]" % name)
+        if isinstance(recv, str) and name == "format":
+            yield st, SStr(fresh("formatted", Bytes))       # text formatting: an opaque text (messages only)
+            return
         if isinstance(recv, (bytes, str)) and name == "join" and len(args) == 1:
             a = args[0]
             if isinstance(a, Obj) and a.kind == "joinlist" and recv in (b"", ""):
@@ -181,6 +184,23 @@ class Lib(object):
             for r in self.dict_call(engine, st, recv, name, args, kwargs, node):
                 yield r
             return
+        if isinstance(recv, Obj) and recv.kind == "vlist":
+            self.used.add("list.%s (cons-list model: append = app(l, [x]), pop(0) = head/tail)" % name)
+            items = engine.heap_get(st, recv, "items")
+            if name == "append" and len(args) == 1:
+                new = self.vl_append(engine, st, items, SVL(VL.cons(to_val(args[0]), VL.nil)))
+                st.heap[(recv.oid, "items")] = SVL(new.z)
+                yield st, None
+                return
+            if name == "pop" and len(args) == 1 and args[0] == 0:
+                bad = st.fork().assume(items.z == VL.nil).label("L%d:pop from empty" % ln)
+                if engine.feasible(bad):
+                    yield bad, Raised(IndexError, ExcObj(IndexError))
+                st.assume(VL.is_cons(items.z))
+                st.heap[(recv.oid, "items")] = SVL(VL.tl(items.z))
+                yield st, SVal(VL.hd(items.z))
+                return
+            raise Unsupported("list method %s (line %d)" % (name, node.lineno))
         if isinstance(recv, Obj) and isinstance(recv.cls, str):
             ext = engine.store.externals.get("%s.%s" % (recv.cls, name))
             if ext is None:
@@ -209,6 +229,31 @@ class Lib(object):
                 yield st, Raised(type(e), ExcObj(type(e)))
             return
         raise Unsupported("method %s of %r (line %d)" % (name, recv, node.lineno))
+
+    def vl_append(self, engine, st, a, b):
+        """a ++ b on cons-lists: computed directly when the spine of `a` is explicit, else the spec function app"""
+        elems, cur = [], z3.simplify(a.z)
+        while z3.is_app(cur) and cur.decl().name() == "cons":
+            elems.append(cur.arg(0))
+            cur = cur.arg(1)
+        if z3.is_app(cur) and cur.decl().name() == "nil":
+            out = b.z
+            for x in reversed(elems):
+                out = VL.cons(x, out)
+            return SVL(out)
+        return self.R(engine, st, "app", a, b)
+
+    def lift_dict(self, engine, st, d, name):
+        """a concrete dict used where a heap dict is expected: a FRESH heap dict with those contents"""
+        o = Obj(dict, "%s(lifted)" % name, "dict", allocated=True)
+        m = z3.K(Val, Val.VNone)
+        h = z3.K(Val, z3.BoolVal(False))
+        for k, v in d.items():
+            m = z3.Store(m, to_val(k), to_val(v))
+            h = z3.Store(h, to_val(k), True)
+        st.heap[(o.oid, "map")] = SArr(m)
+        st.heap[(o.oid, "has")] = SArr(h)
+        return o
 
     # -- dict objects: contents are two arrays (map, has) over Val keys ---------------------------------
     def dget(self, engine, st, d):
@@ -249,7 +294,7 @@ class Lib(object):
             yield st, None
             return
         if name == "copy" and not args:
-            o = Obj(dict, "%s.copy@L%d" % (d.name, engine.rel_line(node)), "dict")
+            o = Obj(dict, "%s.copy@L%d" % (d.name, engine.rel_line(node)), "dict", allocated=True)
             st.heap[(o.oid, "map")] = SArr(m)
             st.heap[(o.oid, "has")] = SArr(h)
             yield st, o
@@ -265,6 +310,9 @@ class Lib(object):
             st.heap[(d.oid, "map")] = SArr(nm)
             st.heap[(d.oid, "has")] = SArr(nh)
             yield st, None
+            return
+        if name in ("keys", "values", "items") and not args:
+            yield st, SVal(fresh("dict_%s" % name, Val))         # an opaque view (used for messages only)
             return
         raise Unsupported("dict.%s (line %d)" % (name, node.lineno))
 
@@ -297,7 +345,29 @@ class Lib(object):
                           note="precondition of the library model: " + r)
             st.pc.extend(facts)
             st.assume(z)
+        guards = []
         for oc in ext.outcomes:
+            gz = []
+            for a in oc.get("when", []):
+                try:
+                    z, _ = self.spec.evaluate_bool(engine, a, pre, pre, dict(env, exc=ExcObj(Exception, (), {k: engine.fresh_of(srt, k) for k, srt in oc.get("info", {}).items()})))
+                    gz.append(z)
+                except Exception:
+                    gz = []
+                    break
+            guards.append(z3.And(gz) if gz else z3.BoolVal(True))
+        # vacuity guard: the outcomes' guards must not exclude every outcome
+        probe = st.fork()
+        probe.assume(z3.Or(guards))
+        engine.canary(probe, "L%d:%s some outcome applies" % (ln, ext.name), list(st.pc))
+        expanded = []
+        for oc in ext.outcomes:
+            if oc.get("raise") == "*":
+                for cls in [AnyException, AnyBaseException] + list(engine.exc_universe()):
+                    expanded.append(dict(oc, **{"raise_cls": cls, "label": "%s %s" % (oc.get("label", "raises"), cls.__name__)}))
+            else:
+                expanded.append(oc)
+        for oc in expanded:
             b = st.fork().label("L%d:%s %s" % (ln, ext.name, oc.get("label", "ok")))
             engine.havoc_modifies(b, env, oc.get("modifies", []), "%s@L%d" % (ext.name, ln))
             for fld, val in oc.get("sets", {}).items():
@@ -308,19 +378,20 @@ class Lib(object):
             scope = dict(env)
             result = None
             if oc.get("raise"):
-                ecls = self.spec.exc_class(oc["raise"], None)
-                info = {k: engine.fresh_of(srt, "%s.%s@L%d" % (oc["raise"], k, ln)) for k, srt in oc.get("info", {}).items()}
+                ecls = oc.get("raise_cls") or self.spec.exc_class(oc["raise"], None)
+                info = {k: engine.fresh_of(srt, "%s.%s@L%d" % (ecls.__name__, k, ln)) for k, srt in oc.get("info", {}).items()}
                 exc = ExcObj(ecls, (), info)
                 scope["exc"] = exc
             else:
                 rs = oc.get("result", ext.result)
                 if rs and rs != "none":
                     result = engine.fresh_of(rs, "%s.result@L%d" % (ext.name, ln))
+                    engine.type_invariants(b, [result])
                     if isinstance(result, Obj) and oc.get("result_name"):
                         result.name = oc["result_name"]
                 scope["result"] = result
-            for a in oc.get("when", []):        # applicability of the outcome (a guard, not a promise)
-                z, facts = self.spec.evaluate_bool(engine, a, b, pre, scope)
+            for a in oc.get("when", []):        # applicability of the outcome: a guard on the state BEFORE the call
+                z, facts = self.spec.evaluate_bool(engine, a, pre, pre, scope)
                 b.pc.extend(facts)
                 b.assume(z)
             before = list(b.pc)
@@ -364,7 +435,9 @@ class Lib(object):
                 bad = st.fork().assume(z3.Not(valid)).label("L%d:decode raises" % engine.rel_line(node))
                 yield bad, Raised(UnicodeDecodeError, ExcObj(UnicodeDecodeError))
                 st.assume(valid)
-                yield st, self.P(engine, st, "unutf8", o)
+                txt = self.P(engine, st, "unutf8", o)
+                st.assume(self.P(engine, st, "utf8", txt).z == o.z)       # decoding is the inverse of encoding on valid input
+                yield st, txt
                 return
         if isinstance(o, (SStr, SBytes)) and name == "startswith" and len(args) == 1:
             a = engine.narrow(st, args[0], "str" if isinstance(o, SStr) else "bytes", node, "startswith argument")
@@ -505,7 +578,16 @@ class Lib(object):
             return
         allconc = all(not is_sym(a) and not isinstance(a, Obj) and not (isinstance(a, tuple) and any(is_sym(x) for x in a))
                       for a in list(args) + list(kwargs.values()))
-        import sys as _sys, os as _os, zlib as _zlib
+        import sys as _sys, os as _os, zlib as _zlib, time as _time
+        if f is _time.time and not args:
+            self.used.add("time.time(): a ghost clock that never runs backwards (real-valued)")
+            yield st, engine.clock_tick(st, "L%d" % ln)
+            return
+        if f in (min, max) and len(args) == 1 and isinstance(args[0], tuple) and len(args[0]) == 2 and \
+                any(isinstance(a, SReal) for a in args[0]):
+            a, b = ops.zreal(args[0][0]), ops.zreal(args[0][1])
+            yield st, SReal(z3.If(a <= b, a, b) if f is min else z3.If(a <= b, b, a))
+            return
         if f is _sys.exc_info:
             if not st.exc_stack:
                 yield st, (None, None, None)
@@ -526,9 +608,16 @@ class Lib(object):
                 for r in self.apply_external(engine, st, engine.store.externals[key], a, kwargs, node):
                     yield r
                 return
+        if f is next and len(args) == 1 and isinstance(args[0], Obj) and isinstance(args[0].cls, str):
+            ext = engine.store.externals.get("%s.__next__" % args[0].cls)
+            if ext is None:
+                raise CheckerError("no library model for next() of %s" % args[0].cls)
+            for r in self.apply_external(engine, st, ext, [args[0]], {}, node):
+                yield r
+            return
         if f is io.BytesIO:
             self.used.add("BytesIO(data)")
-            o = Obj("BytesIO", "bytesio")
+            o = Obj("BytesIO", "bytesio", allocated=True)
             data = args[0] if args else b""
             if isinstance(data, SVal):
                 ok = Val.is_VBytes(data.z)
@@ -600,7 +689,12 @@ class Lib(object):
             bad = st.fork().assume(z3.Not(ops._z(truth(ok)))).label("L%d:int() raises" % ln)
             yield bad, Raised(ValueError, ExcObj(ValueError))
             st.assume(ops._z(truth(ok)))
-            yield st, self.P(engine, st, "undec", args[0])
+            i = self.P(engine, st, "undec", args[0])
+            # the interpreter's digit limit applies to parsing as to rendering; the canonical rendering of the
+            # parsed number is not longer than the text it was parsed from
+            st.assume(ops._z(truth(self.P(engine, st, "renderable", i))))
+            st.assume(z3.Length(self.P(engine, st, "dec", i).z) <= z3.Length(args[0].z))
+            yield st, i
             return
         if f is tuple and len(args) == 1:
             a = args[0]
@@ -628,6 +722,12 @@ class Lib(object):
         if f is range and 1 <= len(args) <= 2 and all(ops.is_intlike(a) for a in args):
             lo, hi = (0, args[0]) if len(args) == 1 else args
             yield st, ops_SymRange(zint(lo), zint(hi))
+            return
+        if f is isinstance and len(args) == 2 and isinstance(args[0], SVal) and isinstance(args[1], type) and \
+                args[1] not in TYPE_ID:
+            # instance of a class that is not one of the plain types: only a heap object can be one
+            v = args[0].z
+            yield st, b2v(z3.And(Val.is_VRef(v), self.spec.uf["subclass_inst"](Val.oid(v), type_id(args[1]))))
             return
         if f is isinstance and len(args) == 2 and not (isinstance(args[0], SVal) and isinstance(args[1], type) and args[1] in TYPE_ID):
             yield st, self.isinstance_(args[0], args[1])
@@ -663,6 +763,9 @@ class Lib(object):
             b = engine.narrow(st, args[0], "bytes", node, "str(x, 'utf8') argument")
             for r in self.call_symmethod(engine, st, SymMethod(b, "decode"), ["utf8"], {}, node):
                 yield r
+            return
+        if f is list and len(args) == 1 and isinstance(args[0], SVal):
+            yield st, SVal(fresh("list_of", Val))
             return
         if f is dict and len(args) == 1 and isinstance(args[0], (SVal, SVL, tuple)) and not kwargs:
             self.used.add("dict(pairs): an opaque mapping value determined by the pairs, or TypeError/ValueError")
@@ -733,6 +836,7 @@ class Lib(object):
             r = SVal(fresh("fset_of_seq", Val))
             s2.assume(Val.is_VFset(r.z))
             s2.assume(ops._z(truth(self.R(engine, s2, "plain", r))))
+            s2.assume(z3.Implies(ops._z(truth(self.R(engine, s2, "sized", a))), ops._z(truth(self.R(engine, s2, "sized", r)))))
             yield s2, r
         s3 = st.fork().assume(z3.Not(z3.Or(isf, isseq))).label("L%d:frozenset raises" % ln)
         for r in self.not_iterable(engine, s3, a, node):
@@ -753,7 +857,7 @@ class Lib(object):
             return isinstance(x.cls, type) and any(issubclass(x.cls, c) for c in classes)
         if isinstance(x, Sym) and not isinstance(x, SVal):
             t = {"int": int, "bool": bool, "bytes": bytes, "str": str, "vl": tuple, "fset": frozenset,
-                 "slice": slice, "f64": float}[x.kind]
+                 "slice": slice, "f64": float, "real": float, "complex": complex}[x.kind]
             return any(issubclass(t, c) for c in classes)
         if not is_sym(x):
             return isinstance(x, classes)
@@ -859,7 +963,7 @@ class Lib(object):
 
     def new_list(self, engine, st, vs, node):
         if all(ops.is_byteslike(v) for v in vs):
-            o = Obj(list, "list@L%d" % engine.rel_line(node), "joinlist")
+            o = Obj(list, "list@L%d" % engine.rel_line(node), "joinlist", allocated=True)
             st.heap[(o.oid, "joined")] = SBytes(z3.Concat(*[zseq(v) for v in vs])) if len(vs) > 1 else \
                 (SBytes(zseq(vs[0])) if vs else b"")
             st.heap[(o.oid, "n")] = len(vs)
@@ -965,6 +1069,18 @@ class Lib(object):
             yield b, Raised(cls, ExcObj(cls, info={"dynamic": True, "value": v}))
 
     def delete(self, engine, st, t):
+        if isinstance(t, ast.Subscript) and isinstance(t.slice, ast.Slice) and t.slice.lower is None and \
+                t.slice.upper is None and t.slice.step is None:
+            res = []
+            for st1, o in engine.ev(st, t.value):
+                if isinstance(o, Raised):
+                    res.append((st1, o))
+                elif isinstance(o, Obj) and o.kind == "vlist":
+                    st1.heap[(o.oid, "items")] = SVL(VL.nil)        # del l[:]
+                    res.append((st1, None))
+                else:
+                    raise Unsupported("del x[:] on %r" % (o,))
+            return res
         if isinstance(t, ast.Subscript) and not isinstance(t.slice, ast.Slice):
             res = []
             for st1, o in engine.ev(st, t.value):
@@ -1056,7 +1172,24 @@ class Lib(object):
             yield o, self.spec.uf["iter_items"](v.z)
 
     def call_star_symbolic(self, engine, st, f, args, starval, kwargs, node):
-        """f(a, b, *rest) where rest is symbolic: only for callables without a contract (apply)"""
+        """f(a, b, *rest) where rest is symbolic: a repository function with a *varargs parameter receives it
+        there; callables without a contract go through apply"""
+        target = f.func if isinstance(f, BoundMethod) else f
+        if engine.is_repo_function(target):
+            import inspect
+            sig = inspect.signature(target)
+            pos = [p for p in sig.parameters.values() if p.kind in (p.POSITIONAL_ONLY, p.POSITIONAL_OR_KEYWORD)]
+            var = [p for p in sig.parameters.values() if p.kind == p.VAR_POSITIONAL]
+            allargs = ([f.recv] if isinstance(f, BoundMethod) else []) + list(args)
+            if not var or len(allargs) < len(pos):
+                raise Unsupported("*args call of %s: positional parameters would be filled from the symbolic tuple" % target.__name__)
+            if isinstance(starval, SVal):
+                raise Unsupported("*args of a dynamic value passed to a contract callee")
+            extra = allargs[len(pos):]
+            rest = self.vl_append(engine, st, SVL(to_vl(extra)), starval if isinstance(starval, SVL) else SVL(to_vl(starval)))
+            for r in engine.call_repo(st, target, allargs[:len(pos)] + [VarArgs(rest)], kwargs, node):
+                yield r
+            return
         if kwargs:
             raise Unsupported("*args together with keywords")
         for st1, vl in self.star_items(engine, st, starval, node):
@@ -1083,6 +1216,13 @@ class Lib(object):
         engine.type_invariants(st, [res])
         st.trace.append(("Call", fv, argvl.z, res.z, kwargs))
         yield st, res
+
+
+class VarArgs(object):
+    """marker: the whole *args tuple of a callee, given as one symbolic list"""
+
+    def __init__(self, vl):
+        self.vl = vl
 
 
 class FdVal(SInt):
